@@ -263,7 +263,7 @@ func c02Report(w *fw.W, sess *world.Session, cs *world.Case, d string) {
 	for i := 0; i < 4; i++ {
 		d2, _, _, _ := tracePair(sess, cs, true)
 		if d2 != d {
-			w.Notes = append(w.Notes, "HARNESS ERROR: C02 violation did not reproduce: "+cs.Note)
+			w.Notes = append(w.Notes, "UNREPRODUCED: C02 violation did not reproduce: "+cs.Note)
 			return
 		}
 	}
